@@ -542,6 +542,10 @@ namespace fixedmath
       {
       if( fixed_likely(rh != 0) )
         {
+        // 64 bit unsigned divisor can not be promoted to wider signed type, above max of fixed_internal quotient is 0
+        if constexpr ( is_unsigned_v<integral_type> && sizeof(integral_type) == sizeof(fixed_internal) )
+          if( rh > static_cast<integral_type>( limits_::quiet_NaN().v ) )
+            return fixed_t{};
         fixed_t const result = as_fixed( lh.v / promote_type_to_signed(rh) );
 //         if( fixed_likely( check_division_result(result)) )
           return result;
